@@ -452,19 +452,30 @@ func (mbox *MailboxView) staticNumSet(numSet imap.NumSet) imap.NumSet {
 		return mbox.searchRes
 	}
 
+	// Build a new set instead of modifying the ranges in-place: replacing "*"
+	// can break the ordering invariant of the set
 	switch numSet := numSet.(type) {
 	case imap.SeqSet:
-		max := uint32(len(mbox.l))
-		for i := range numSet {
-			r := &numSet[i]
+		// Sequence numbers are relative to the client view of the mailbox
+		max := mbox.tracker.NumMessages()
+		var static imap.SeqSet
+		for _, r := range numSet {
 			staticNumRange(&r.Start, &r.Stop, max)
+			static.AddRange(r.Start, r.Stop)
 		}
+		return static
 	case imap.UIDSet:
-		max := uint32(mbox.uidNext) - 1
-		for i := range numSet {
-			r := &numSet[i]
-			staticNumRange((*uint32)(&r.Start), (*uint32)(&r.Stop), max)
+		// "*" is the UID of the last message in the mailbox
+		var max uint32
+		if len(mbox.l) > 0 {
+			max = uint32(mbox.l[len(mbox.l)-1].uid)
 		}
+		var static imap.UIDSet
+		for _, r := range numSet {
+			staticNumRange((*uint32)(&r.Start), (*uint32)(&r.Stop), max)
+			static.AddRange(r.Start, r.Stop)
+		}
+		return static
 	}
 
 	return numSet
